@@ -577,3 +577,48 @@ Definition judge_native (grants : Z) (k : xcase) : verdict :=
   else if negb (nonneg_b dom b1) && nonneg_b dom b0 then V_propfalse (200 + i)%N
   else if negb (loss_b dom b0 b1 grants (length (admins (xc_env k))) (length (xc_txs k))) then V_propfalse (300 + i)%N
   else if (i =? 0)%N then V_mismatch 0 else (0%N, i).
+
+(** ------------------------------------------------------------------------------------ *)
+(** Ethereum transactions ([applyEthTransaction]).  The EVM is not modelled: the receipt's status
+    and gas used are inputs.  What the model fixes is the accounting around them: the sender pays
+    gasUsed * gasPrice to the coinbase (the first admin - not shared among the admins), its nonce
+    becomes tx.nonce + 1, and only a SUCCESS moves the value.  A transaction the state transition
+    rejects (before or after the gas is bought: nonce, funds for gas, intrinsic gas, funds for the
+    transfer) uses no gas: FAILED with gasUsed = 0 leaves nothing but the nonce. *)
+Record ethobs := { eo_from : N; eo_to : option N; eo_value : Z; eo_price : Z; eo_nonce : N;
+                   eo_ok : bool; eo_gas_used : Z }.
+
+Definition eth_apply (coinbase : N) (bn : bals * (N -> N)) (t : ethobs) : bals * (N -> N) :=
+  let '(b, n) := bn in
+  let fee := eo_gas_used t * eo_price t in
+  let b1 := bset b (eo_from t) (b (eo_from t) - fee) in
+  let b2 := bset b1 coinbase (b1 coinbase + fee) in
+  let b3 := if eo_ok t
+            then match eo_to t with
+                 | Some r => let b' := bset b2 (eo_from t) (b2 (eo_from t) - eo_value t) in bset b' r (b' r + eo_value t)
+                 | None => b2
+                 end
+            else b2 in
+  (b3, nset n (eo_from t) (wrap64 (eo_nonce t + 1))).
+
+Record ethcase := {
+  ec_coinbase : N; ec_txs : list ethobs;
+  ec_bals0 : list (N * Z); ec_nonces0 : list (N * N);
+  ec_obals : list (N * Z); ec_ononces : list (N * N);
+  ec_other : N          (* changed entries outside the tracked accounts (store keys, code, other accounts) *)
+}.
+
+Definition eth_block_ok (k : ethcase) : bool :=
+  let '(b, n) := fold_left (eth_apply (ec_coinbase k))
+                           (ec_txs k)
+                           (of_alist (ec_bals0 k), fun a => match alookup N.eqb a (ec_nonces0 k) with Some v => v | None => 0%N end) in
+  forallb (fun p : N * Z => b (fst p) =? snd p) (ec_obals k) &&
+  forallb (fun p : N * N => (n (fst p) =? snd p)%N) (ec_ononces k) &&
+  (ec_other k =? 0)%N.
+
+(** code 600: a block with a FAILED Ethereum transaction whose balances / nonces are not the
+    fee-and-nonce specification, or that changed anything else *)
+Definition judge_eth (k : ethcase) : verdict :=
+  if eth_block_ok k then (0%N, 1%N)
+  else if existsb (fun t => negb (eo_ok t)) (ec_txs k) then V_propfalse 600
+  else V_mismatch 0.
